@@ -21,13 +21,21 @@ RE_ENC = re.compile(
     r'^let mut sat_mask: (?P<MT>u64|u32) = 0; let mut sat_num: u8 = 0; '
     r'for bias in value\.iter\(\) \{ if bias\.satellite_id <= (?P<SMAX>\d+) \{ let sat = 1 << bias\.satellite_id; if sat_mask & sat == 0 \{ sat_mask \|= 1 << bias\.satellite_id; sat_num \+= 1; \} \} '
     r'else \{ return Err\(RtcmError::OutOfRange\); \} \} '
-    r'(?P<chk>if sat_num > 63 \{ return Err\(RtcmError::OutOfRange\); \} )?'
-    r'asm\.put::<U8>\(sat_num, 6\)\?; '
+    r'(?P<chk>if sat_num > (?P<CHKN>\d+) \{ return Err\(RtcmError::OutOfRange\); \} )?'
+    r'asm\.put::<U8>\(sat_num, (?P<SNW>\d+)\)\?; '
     r'for s in 0\.\.=(?P<SMAX2>\d+)u8 \{ if sat_mask & \(1 << s\) != 0 \{ asm\.put::<U8>\(s, (?P<SW>\d+)\)\?; '
-    r'let num_biases = value\.iter\(\)\.filter\(\|b\| b\.satellite_id == s && to_id\(b\.signal_id\)\.is_some\(\)\)\.count\(\); '
-    r'if num_biases > 31 \{ return Err\(RtcmError::OutOfRange\); \} asm\.put::<U8>\(num_biases as u8, 5\)\?; let mut bias_mask: u32 = 0; '
-    r'for bias in value\.iter\(\)\.filter\(\|b\| b\.satellite_id == s\) \{ if let Some\(sig_id\) = to_id\(bias\.signal_id\) \{ asm\.put::<U8>\(sig_id, 5\)\?; '
+    r'let num_biases = value\.iter\(\)\.filter\(\|b\| (?P<CCOND>.+?)\)\.count\(\); '
+    r'(?P<chk2>if num_biases > (?P<NBMAX>\d+) \{ return Err\(RtcmError::OutOfRange\); \} )?asm\.put::<U8>\(num_biases as u8, (?P<NBW>\d+)\)\?; let mut bias_mask: u32 = 0; '
+    r'for bias in value\.iter\(\)\.filter\(\|b\| b\.satellite_id == s\) \{ if let Some\(sig_id\) = to_id\(bias\.signal_id\) \{ asm\.put::<U8>\(sig_id, (?P<SIGW>\d+)\)\?; '
     r'let mut bias = bias\.bias_m; bias /= (?P<RES>[0-9.]+); let bias = if bias > 0\.0 \{ bias \+ 0\.5 \} else \{ bias - 0\.5 \} as i16; asm\.put::<I16>\(bias, (?P<BW>\d+)\)\?; \} \} \} \} Ok\(\(\)\)$')
+
+# RTCM 10403.3, SSR code bias messages 1059 (GPS) / 1065 (GLONASS): no. of satellites 6 bits; satellite id 6 / 5 bits; no. of code biases 5 bits;
+# signal and tracking mode indicator 5 bits; code bias 14 bits at 0.01 m.  The specification functions use these numbers; the code's own
+# numbers are only used to find the statements, so a changed width or limit in the code fails an obligation instead of moving the spec.
+STANDARD = {
+    'df_msg1059_biases': {'NB': 64, 'SMAX': 63, 'SW': 6, 'BW': 14, 'RES': '0.01'},
+    'df_msg1065_biases': {'NB': 32, 'SMAX': 31, 'SW': 5, 'BW': 14, 'RES': '0.01'},
+}
 
 
 def is_bias_list(fr):
@@ -153,14 +161,14 @@ def emit(vf, exp, path, fr, ind):
     m = RE_ENC.match(fr.enc_body)
     if not m:
         raise ToolLimit('%s: encode does not have the expected shape: %s' % (fr.name, fr.enc_body[:300]))
-    MT, SMAX, SW, RES, BW = m.group('MT'), int(m.group('SMAX')), int(m.group('SW')), m.group('RES'), int(m.group('BW'))
-    NB = 64 if MT == 'u64' else 32
-    if int(m.group('SMAX2')) != SMAX or SMAX != NB - 1:
-        raise ToolLimit('%s: satellite bound %d / loop bound %s do not match the %d-bit mask' % (fr.name, SMAX, m.group('SMAX2'), NB))
-    has_chk = m.group('chk') is not None
+    C = m.groupdict()
+    MT = C['MT']
+    has_chk = C['chk'] is not None
+    has_chk2 = C['chk2'] is not None
     E = fr.struct.name
     pid = fr.name
-    D = {'MT': MT, 'NB': NB, 'SMAX': SMAX, 'SW': SW, 'RES': RES, 'BW': BW, 'E': E}
+    D = dict(STANDARD[pid]); D['MT'] = MT; D['E'] = E
+    NB, SMAX, SW, RES, BW = D['NB'], D['SMAX'], D['SW'], D['RES'], D['BW']
     # to_id: real text + spec twin
     vgen.emit_spec_twin(vf, exp, path + ['fn:to_id'], 'to_id_spec', indent=ind, replace=[(r'sig\.band\(\)', 'sig.0'), (r'sig\.attribute\(\)', 'sig.1')])
     vf.rewrites.append('X8 %s::to_id spec twin: accessor calls band()/attribute() replaced by the fields they are proved to return' % pid)
@@ -205,22 +213,23 @@ def emit(vf, exp, path, fr, ind):
     A(('before', 'verif_k0 += 1;', 0, SAT0B % D))
     after_loop0 = ('proof { lemma_cnt_is_nsat(sat_mask, vv, %(NB)d); lemma_cntl_le(sat_mask, %(NB)d); }' % D)
     if has_chk:
-        A(('before', 'if sat_num > 63', 0, after_loop0))
+        A(('before', 'if sat_num > %s' % C['CHKN'], 0, after_loop0))
         A(('before', 'return Err(RtcmError::OutOfRange);', 1, 'proof { assert(!counts_fit(vv)); }'))
     else:
-        A(('before', 'asm.put_U8(sat_num, 6)?;', 0, after_loop0))
-    A(('after', 'asm.put_U8(sat_num, 6)?;', 0, 'proof { assert(asm.bits() =~= vb0 + crate::bits_of_int(sat_num as int, 6) + groups(vv, 0)); }'))
+        A(('before', 'asm.put_U8(sat_num, %s)?;' % C['SNW'], 0, after_loop0))
+    A(('after', 'asm.put_U8(sat_num, %s)?;' % C['SNW'], 0, 'proof { assert(asm.bits() =~= vb0 + crate::bits_of_int(sat_num as int, 6) + groups(vv, 0)); }'))
     sp.loops[1] = INV1 % D
     sp.loopbodies[1] = 'let ghost vb1 = asm.bits(); proof { lemma_setl(sat_mask, s as %(MT)s, s as %(MT)s); }' % D
     sp.loops[2] = INV2 % D
-    A(('before', 'return Err(RtcmError::OutOfRange);', 2 if has_chk else 1,
-       'proof { assert(present(vv, vv.len() as int, s as int) && gcnt(vv, s as int, vv.len()) > 31); assert(!counts_fit(vv)); }'))
-    A(('after', 'asm.put_U8(num_biases as u8, 5)?;', 0, 'let ghost vb2 = asm.bits();\nproof { assert(vb2.subrange(0, vb0.len() as int) =~= vb0); }'))
+    if has_chk2:
+        A(('before', 'return Err(RtcmError::OutOfRange);', 2 if has_chk else 1,
+           'proof { assert(present(vv, vv.len() as int, s as int) && gcnt(vv, s as int, vv.len()) > 31); assert(!counts_fit(vv)); }'))
+    A(('after', 'asm.put_U8(num_biases as u8, %s)?;' % C['NBW'], 0, 'let ghost vb2 = asm.bits();\nproof { assert(vb2.subrange(0, vb0.len() as int) =~= vb0); }'))
     sp.loopbodies[3] = 'proof { assert(asm.bits().subrange(0, vb0.len() as int) =~= vb0); }'
-    A(('after', 'asm.put_U8(sig_id, 5)?;', 0, 'proof { assert(asm.bits().subrange(0, vb0.len() as int) =~= vb0); }'))
+    A(('after', 'asm.put_U8(sig_id, %s)?;' % C['SIGW'], 0, 'proof { assert(asm.bits().subrange(0, vb0.len() as int) =~= vb0); }'))
     A(('after', 'let mut bias_mask: u32 = 0;', 0, 'proof { assert(asm.bits() =~= vb2 + gbits(vv, s as int, 0)); }'))
     sp.loops[3] = INV3 % D
-    A(('after', 'asm.put_I16(bias, %d)?;' % BW, 0,
+    A(('after', 'asm.put_I16(bias, %s)?;' % C['BW'], 0,
        'proof { assert(asm.bits() =~= vb2 + (gbits(vv, s as int, verif_k1 as nat) + entry_bits(vv[verif_k1 as int]))); }'))
     A(('before', 's += 1;', 0,
        '''proof {
@@ -231,3 +240,341 @@ def emit(vf, exp, path, fr, ind):
 }'''))
     A(('before', 'Ok(())', 0, 'proof { assert(s == %(NB)d); assert(counts_fit(vv)); assert(asm.bits() =~= vb0 + enc_list(vv)); }' % D))
     vgen.emit_fn(vf, exp, path + ['fn:encode'], sp, label='df::dfs::%s::encode' % pid, indent=ind, keep_pub=True)
+
+
+# ---------------------------------------------------------------------------------------------------------------------
+# decode side: the real decoder is proved equal to a recursive spec parser dec_list(); lemmas then show that the spec parser
+# inverts the spec encoder: dec_list(enc_list(v) + tail) == Some((nf(v), tail)), nf(v) = the recognised entries grouped by
+# ascending satellite, each group in list order, biases re-read from their fields.
+RE_DEC = re.compile(
+    r'^let mut value = DataVec::<(?P<E>\w+), (?P<CAP>\w+)>::new\(\); let sat_num = par\.parse::<U8>\((?P<SNW>\d+)\)\?; '
+    r'for _ in 0\.\.sat_num \{ let satellite_id = par\.parse::<U8>\((?P<SW>\d+)\)\?; let bias_num = par\.parse::<U8>\((?P<NBW>\d+)\)\?; '
+    r'for _ in 0\.\.bias_num \{ if let Some\(signal_id\) = to_sig\(par\.parse::<U8>\((?P<SIGW>\d+)\)\?\) \{ let bias = par\.parse::<I16>\((?P<BW>\d+)\)\? as f32; '
+    r'if value\.len\(\) >= (?P<CAP2>\w+) \{ return Err\(RtcmError::CapacityExceeded\); \} '
+    r'value\.push\((?P=E) \{ satellite_id, signal_id, bias_m: bias \* (?P<RES>[0-9.]+), \}\); \} \} \} Ok\(value\)$')
+
+DSPEC = '''
+pub open spec fn deq(q: i16) -> f32 { crate::f32_mul_spec(crate::i16_to_f32_spec(q), %(RES)sf32) }
+// the decoder as a function of the remaining bits: m entries of satellite s / n satellite groups / the whole list
+pub open spec fn dec_entries(w: Seq<bool>, s: u8, m: nat, acc: Seq<%(E)s>) -> Option<(Seq<%(E)s>, Seq<bool>)> decreases m {
+    if m == 0 { Some((acc, w)) }
+    else if w.len() < 5 { None }
+    else {
+        let id = crate::uval(w.subrange(0, 5)) as u8;
+        let w1 = w.subrange(5, w.len() as int);
+        match to_sig_spec(id) {
+            None => dec_entries(w1, s, (m - 1) as nat, acc),
+            Some(sig) =>
+                if w1.len() < %(BW)d || acc.len() >= %(CAP)s { None }
+                else { dec_entries(w1.subrange(%(BW)d, w1.len() as int), s, (m - 1) as nat,
+                                   acc.push(%(E)s { satellite_id: s, signal_id: sig, bias_m: deq(crate::sval(w1.subrange(0, %(BW)d))) })) },
+        }
+    }
+}
+pub open spec fn dec_groups(w: Seq<bool>, n: nat, acc: Seq<%(E)s>) -> Option<(Seq<%(E)s>, Seq<bool>)> decreases n {
+    if n == 0 { Some((acc, w)) }
+    else if w.len() < %(SW5)d { None }
+    else {
+        let s = crate::uval(w.subrange(0, %(SW)d)) as u8;
+        let m = crate::uval(w.subrange(%(SW)d, %(SW5)d)) as nat;
+        match dec_entries(w.subrange(%(SW5)d, w.len() as int), s, m, acc) {
+            None => None,
+            Some(x) => dec_groups(x.1, (n - 1) as nat, x.0),
+        }
+    }
+}
+pub open spec fn dec_list(w: Seq<bool>) -> Option<(Seq<%(E)s>, Seq<bool>)> {
+    if w.len() < 6 { None } else { dec_groups(w.subrange(6, w.len() as int), crate::uval(w.subrange(0, 6)) as nat, Seq::<%(E)s>::empty()) }
+}
+pub proof fn lemma_parsed_is_uval(w: Seq<bool>, n: nat)
+    requires n <= w.len(), n <= 8,
+    ensures forall|x: u8| #![trigger crate::bits_of_int(x as int, n)] crate::bits_of_int(x as int, n) == w.subrange(0, n as int) && (x as int) < crate::pow2(n) ==> x as int == crate::uval(w.subrange(0, n as int)),
+{
+    assert forall|x: u8| #![trigger crate::bits_of_int(x as int, n)] crate::bits_of_int(x as int, n) == w.subrange(0, n as int) && (x as int) < crate::pow2(n) implies x as int == crate::uval(w.subrange(0, n as int)) by {
+        crate::lemma_uval_bits(x as int, n);
+    }
+}
+'''
+
+DINV_A = '''    invariant
+        verif_s0 == old(par).rest(), verif_s0.len() >= 6, sat_num as int == crate::uval(verif_s0.subrange(0, 6)),
+        value@.len() <= %(CAP)s,
+        dec_list(verif_s0) == dec_groups(par.rest(), (sat_num - verif_i0) as nat, value@),'''
+
+DINV_B = '''    invariant
+        verif_s0 == old(par).rest(), value@.len() <= %(CAP)s, verif_i0 < sat_num,
+        dec_list(verif_s0) == (match dec_entries(par.rest(), satellite_id, (bias_num - verif_i1) as nat, value@) {
+            None => None::<(Seq<%(E)s>, Seq<bool>)>,
+            Some(x) => dec_groups(x.1, (sat_num - verif_i0 - 1) as nat, x.0),
+        }),'''
+
+
+def emit_decode(vf, exp, path, fr, ind):
+    m = RE_DEC.match(fr.dec_body)
+    if not m:
+        raise ToolLimit('%s: decode does not have the expected shape: %s' % (fr.name, fr.dec_body[:300]))
+    C = m.groupdict()
+    D = dict(STANDARD[fr.name]); D['E'] = C['E']; D['CAP'] = C['CAP']     # CAP: the capacity constant of the list type itself
+    D['SW5'] = D['SW'] + 5; D['B5'] = D['BW'] + 5
+    pid = fr.name
+    # to_sig: real text + spec twin (constructor calls replaced by the tuple struct literal they are proved to build)
+    vgen.emit_spec_twin(vf, exp, path + ['fn:to_sig'], 'to_sig_spec', indent=ind, replace=[(r'(\w+SigId)::new\(', r'\1(')])
+    vf.rewrites.append('X8 %s::to_sig spec twin: SigId::new(b, a) replaced by the tuple struct SigId(b, a) it is proved to return' % pid)
+    sp = FnSpec(); sp.ret = 'r'; sp.body_props = {'C16', 'C02'}
+    sp.ensures = [('l2.%s.to_sig.twin' % pid, {'C16'}, 'r == to_sig_spec(id)')]
+    vgen.emit_fn(vf, exp, path + ['fn:to_sig'], sp, label='df::dfs::%s::to_sig' % pid, indent=ind, keep_pub=True)
+    vf.emit('\n'.join(ind + l for l in (DSPEC % D).split('\n')))
+    sp = FnSpec(); sp.ret = 'r'; sp.body_props = {'C16', 'C02'}
+    sp.rename = 'decode_checked'
+    sp.attrs = '#[verifier::rlimit(150)]'
+    sp.replace = [
+        (r'\b(asm|par)\.(put|parse)::<(\w+)>\(', r'\1.\2_\3(', 'R6 generic L0 call monomorphised'),
+        (r'par\.parse_I16\((\d+)\)\? as f32', r'crate::verif_i16_to_f32(par.parse_I16(\1)?)', 'RF int->f32 cast abstracted (cannot panic)'),
+        (r'bias_m: bias \* ([0-9.]+)', r'bias_m: crate::verif_f32_mul(bias, \1)', 'RF float multiplication abstracted (cannot panic)'),
+    ]
+    sp.ensures = [
+        ('l2.%s.decode.never_exceeds_capacity' % pid, {'C16', 'C02'}, 'r is Ok ==> r->Ok_0@.len() <= %(CAP)s' % D),
+        ('l2.%s.decode.is_the_spec_parser' % pid, {'C16', 'C01'},
+         '(r is Ok) == (dec_list(old(par).rest()) is Some)\n'
+         '    && (r is Ok ==> r->Ok_0@ == dec_list(old(par).rest())->Some_0.0 && final(par).rest() == dec_list(old(par).rest())->Some_0.1)'),
+        ('l2.%s.decode.error_kinds' % pid, {'C16', 'C02'}, 'r is Err ==> (r->Err_0 is BufferOverflow || r->Err_0 is CapacityExceeded)'),
+    ]
+    A = sp.inserts.append
+    A(('before', 'let sat_num = par.parse_U8(%s)?;' % C['SNW'], 0, 'let ghost verif_s0 = par.rest();\nproof { if verif_s0.len() >= 6 { lemma_parsed_is_uval(verif_s0, 6); } }'))
+    sp.loops[0] = DINV_A % D
+    sp.loopbodies[0] = ('let ghost verif_w = par.rest();\nproof { if verif_w.len() >= %(SW)d { lemma_parsed_is_uval(verif_w, %(SW)d); } '
+                        'if verif_w.len() >= %(SW5)d { lemma_parsed_is_uval(verif_w.subrange(%(SW)d, verif_w.len() as int), 5); '
+                        'assert(verif_w.subrange(%(SW)d, verif_w.len() as int).subrange(0, 5) =~= verif_w.subrange(%(SW)d, %(SW5)d)); '
+                        'assert(verif_w.subrange(%(SW)d, verif_w.len() as int).subrange(5, verif_w.len() - %(SW)d) =~= verif_w.subrange(%(SW5)d, verif_w.len() as int)); } }' % D)
+    sp.loops[1] = DINV_B % D
+    sp.loopbodies[1] = ('let ghost verif_u = par.rest(); let ghost verif_a = value@;\nproof { if verif_u.len() >= 5 { lemma_parsed_is_uval(verif_u, 5); } '
+                        'if verif_u.len() >= %(B5)d { let u1 = verif_u.subrange(5, verif_u.len() as int); assert(u1.subrange(%(BW)d, u1.len() as int) =~= verif_u.subrange(%(B5)d, verif_u.len() as int)); } }' % D)
+    vgen.emit_fn(vf, exp, path + ['fn:decode'], sp, label='df::dfs::%s::decode' % pid, indent=ind, keep_pub=True)
+    # ---- pure lemmas: the spec parser inverts the spec encoder
+    D['SIGT'] = re.search(r'signal_id:\s*(\w+)', exp.text[fr.struct.start:fr.struct.end]).group(1)
+    vf.emit('\n'.join(ind + l for l in ((INVERSE + INVERSE2 + GROUPED) % D).split('\n')))
+    for (name, text) in THEOREMS:
+        vgen.emit_lemma(vf, 'l2.%s.%s' % (pid, name), {'C16', 'C01'}, '\n'.join(ind + l for l in (text % D).split('\n')))
+
+
+INVERSE = '''
+// ---- the spec parser inverts the spec encoder (pure lemmas; the code enters through encode_checked == enc_list and decode_checked == dec_list)
+pub open spec fn redec(e: %(E)s) -> %(E)s {
+    %(E)s { satellite_id: e.satellite_id, signal_id: e.signal_id, bias_m: deq(crate::sval(crate::sbits(crate::bias_q(e.bias_m, %(RES)sf32) as int, %(BW)d))) }
+}
+pub open spec fn gent(v: Seq<%(E)s>, s: int, k: nat) -> Seq<%(E)s> decreases k {
+    if k == 0 { Seq::<%(E)s>::empty() }
+    else if v[k - 1].satellite_id == s && recognised(v[k - 1]) { gent(v, s, (k - 1) as nat).push(redec(v[k - 1])) }
+    else { gent(v, s, (k - 1) as nat) }
+}
+pub open spec fn gents(v: Seq<%(E)s>, t: nat) -> Seq<%(E)s> decreases t {
+    if t == 0 { Seq::<%(E)s>::empty() }
+    else if present(v, v.len() as int, t - 1) { gents(v, (t - 1) as nat) + gent(v, t - 1, v.len()) }
+    else { gents(v, (t - 1) as nat) }
+}
+// the list a decoder returns for the encoding of v: recognised entries grouped by ascending satellite, each group in list order
+pub open spec fn nf(v: Seq<%(E)s>) -> Seq<%(E)s> { gents(v, %(NB)d) }
+// recognised entries with satellite < t among the first k list elements, in list order, as decoded
+pub open spec fn sel(v: Seq<%(E)s>, t: int, k: nat) -> Seq<%(E)s> decreases k {
+    if k == 0 { Seq::<%(E)s>::empty() }
+    else if v[k - 1].satellite_id < t && recognised(v[k - 1]) { sel(v, t, (k - 1) as nat).push(redec(v[k - 1])) }
+    else { sel(v, t, (k - 1) as nat) }
+}
+pub proof fn lemma_table(g: %(SIGT)s)
+    requires to_id_spec(g) is Some,
+    ensures to_id_spec(g)->Some_0 < 32, to_sig_spec(to_id_spec(g)->Some_0) == Some(g),
+{}
+pub proof fn lemma_gent_len(v: Seq<%(E)s>, s: int, k: nat)
+    ensures gent(v, s, k).len() == gcnt(v, s, k),
+    decreases k
+{ if k > 0 { lemma_gent_len(v, s, (k - 1) as nat); } }
+pub proof fn lemma_gent_absent(v: Seq<%(E)s>, s: int, k: nat)
+    requires k <= v.len(), !present(v, k as int, s),
+    ensures gent(v, s, k) == Seq::<%(E)s>::empty(),
+    decreases k
+{
+    if k > 0 {
+        assert(v[k - 1].satellite_id != s) by { if v[k - 1].satellite_id == s { assert(present(v, k as int, s)); } }
+        assert(!present(v, k - 1, s)) by { if present(v, k - 1, s) { let j = choose|j: int| 0 <= j < k - 1 && #[trigger] v[j].satellite_id == s; assert(0 <= j < k && v[j].satellite_id == s); } }
+        lemma_gent_absent(v, s, (k - 1) as nat);
+    }
+}
+// counting: the groups together never hold more entries than the list
+pub open spec fn cnt_sat(v: Seq<%(E)s>, s: int, k: nat) -> nat decreases k { if k == 0 { 0 } else { cnt_sat(v, s, (k - 1) as nat) + (if v[k - 1].satellite_id == s { 1nat } else { 0nat }) } }
+pub open spec fn cnt_lt(v: Seq<%(E)s>, t: int, k: nat) -> nat decreases k { if k == 0 { 0 } else { cnt_lt(v, t, (k - 1) as nat) + (if v[k - 1].satellite_id < t { 1nat } else { 0nat }) } }
+pub proof fn lemma_count_a(v: Seq<%(E)s>, s: int, k: nat) ensures gcnt(v, s, k) <= cnt_sat(v, s, k) decreases k { if k > 0 { lemma_count_a(v, s, (k - 1) as nat); } }
+pub proof fn lemma_count_b(v: Seq<%(E)s>, t: int, k: nat) ensures cnt_lt(v, t + 1, k) == cnt_lt(v, t, k) + cnt_sat(v, t, k), cnt_lt(v, t, k) <= k, cnt_lt(v, 0, k) == 0 decreases k { if k > 0 { lemma_count_b(v, t, (k - 1) as nat); } }
+pub proof fn lemma_gents_len(v: Seq<%(E)s>, t: nat)
+    ensures gents(v, t).len() <= cnt_lt(v, t as int, v.len()), gents(v, t).len() <= v.len(),
+    decreases t
+{
+    lemma_count_b(v, t as int, v.len());
+    if t > 0 {
+        lemma_gents_len(v, (t - 1) as nat);
+        lemma_count_b(v, t - 1, v.len());
+        lemma_gent_len(v, t - 1, v.len()); lemma_count_a(v, t - 1, v.len());
+    }
+}
+pub proof fn lemma_dec_entries(v: Seq<%(E)s>, s: u8, k: nat, tail: Seq<bool>, m: nat, acc: Seq<%(E)s>)
+    requires k <= v.len(), acc.len() + gcnt(v, s as int, k) <= %(CAP)s,
+    ensures dec_entries(gbits(v, s as int, k) + tail, s, gcnt(v, s as int, k) + m, acc) == dec_entries(tail, s, m, acc + gent(v, s as int, k)),
+    decreases k
+{
+    if k == 0 {
+        assert(gbits(v, s as int, 0) + tail =~= tail); assert(acc + gent(v, s as int, 0) =~= acc);
+    } else {
+        let e = v[k - 1];
+        if e.satellite_id == s && recognised(e) {
+            let x = entry_bits(e);
+            let k1 = (k - 1) as nat;
+            assert(gbits(v, s as int, k) + tail =~= gbits(v, s as int, k1) + (x + tail));
+            lemma_dec_entries(v, s, k1, x + tail, m + 1, acc);
+            let acc1 = acc + gent(v, s as int, k1);
+            let w = x + tail;
+            let id = to_id_spec(e.signal_id)->Some_0;
+            lemma_table(e.signal_id);
+            crate::lemma_bits_len(id as int, 5);
+            assert(crate::pow2(5) == 32) by(compute);
+            crate::lemma_uval_bits(id as int, 5);
+            let sb = crate::sbits(crate::bias_q(e.bias_m, %(RES)sf32) as int, %(BW)d);
+            crate::axiom_sbits_len(crate::bias_q(e.bias_m, %(RES)sf32) as int, %(BW)d);
+            assert(w.subrange(0, 5) =~= crate::bits_of_int(id as int, 5));
+            let w1 = w.subrange(5, w.len() as int);
+            assert(w1 =~= sb + tail);
+            assert(w1.subrange(0, %(BW)d) =~= sb);
+            assert(w1.subrange(%(BW)d, w1.len() as int) =~= tail);
+            lemma_gent_len(v, s as int, k1);
+            assert(acc1.push(redec(e)) =~= acc + gent(v, s as int, k));
+            assert(redec(e).satellite_id == s);
+        } else {
+            lemma_dec_entries(v, s, (k - 1) as nat, tail, m, acc);
+        }
+    }
+}
+pub proof fn lemma_dec_groups(v: Seq<%(E)s>, t: nat, tail: Seq<bool>, m: nat, acc: Seq<%(E)s>)
+    requires t <= %(NB)d, counts_fit(v), acc.len() + gents(v, t).len() <= %(CAP)s,
+    ensures dec_groups(groups(v, t) + tail, nsat(v, t) + m, acc) == dec_groups(tail, m, acc + gents(v, t)),
+    decreases t
+{
+    if t == 0 {
+        assert(groups(v, 0) + tail =~= tail); assert(acc + gents(v, 0) =~= acc);
+    } else {
+        let s = (t - 1) as int;
+        let t1 = (t - 1) as nat;
+        if present(v, v.len() as int, s) {
+            let g = group(v, s);
+            assert(groups(v, t) + tail =~= groups(v, t1) + (g + tail));
+            lemma_dec_groups(v, t1, g + tail, m + 1, acc);
+            let acc1 = acc + gents(v, t1);
+            let w = g + tail;
+            let c = gcnt(v, s, v.len());
+            assert(c <= 31);
+            crate::lemma_bits_len(s, %(SW)d); crate::lemma_bits_len(c as int, 5);
+            assert(crate::pow2(5) == 32 && crate::pow2(%(SW)d) == %(NB)d) by(compute);
+            crate::lemma_uval_bits(s, %(SW)d); crate::lemma_uval_bits(c as int, 5);
+            assert(w.subrange(0, %(SW)d) =~= crate::bits_of_int(s, %(SW)d));
+            assert(w.subrange(%(SW)d, %(SW5)d) =~= crate::bits_of_int(c as int, 5));
+            assert(w.subrange(%(SW5)d, w.len() as int) =~= gbits(v, s, v.len()) + tail);
+            lemma_gent_len(v, s, v.len());
+            lemma_dec_entries(v, s as u8, v.len(), tail, 0, acc1);
+            assert(acc1 + gent(v, s, v.len()) =~= acc + gents(v, t));
+        } else {
+            lemma_dec_groups(v, t1, tail, m, acc);
+        }
+    }
+}
+'''
+
+GROUPED = '''
+pub open spec fn grouped(l: Seq<%(E)s>) -> bool { forall|i: int, j: int| 0 <= i < j < l.len() ==> (#[trigger] l[i]).satellite_id <= (#[trigger] l[j]).satellite_id }
+pub proof fn lemma_gent_sat(v: Seq<%(E)s>, s: int, k: nat)
+    ensures forall|i: int| 0 <= i < gent(v, s, k).len() ==> (#[trigger] gent(v, s, k)[i]).satellite_id == s,
+    decreases k
+{
+    if k > 0 {
+        lemma_gent_sat(v, s, (k - 1) as nat);
+        let g0 = gent(v, s, (k - 1) as nat);
+        assert forall|i: int| 0 <= i < gent(v, s, k).len() implies (#[trigger] gent(v, s, k)[i]).satellite_id == s by {
+            if v[k - 1].satellite_id == s && recognised(v[k - 1]) {
+                if i < g0.len() { assert(gent(v, s, k)[i] == g0[i]); } else { assert(gent(v, s, k)[i] == redec(v[k - 1])); }
+            }
+        }
+    }
+}
+pub proof fn lemma_gents_grouped(v: Seq<%(E)s>, t: nat)
+    ensures grouped(gents(v, t)), forall|i: int| 0 <= i < gents(v, t).len() ==> (#[trigger] gents(v, t)[i]).satellite_id < t,
+    decreases t
+{
+    if t > 0 {
+        lemma_gents_grouped(v, (t - 1) as nat);
+        lemma_gent_sat(v, t - 1, v.len());
+    }
+}
+'''
+
+THEOREMS = [
+    ('decode_inverts_encode', '''pub proof fn lemma_decode_inverts_encode(v: Seq<%(E)s>, tail: Seq<bool>)
+    requires counts_fit(v), v.len() <= %(CAP)s,
+    ensures dec_list(enc_list(v) + tail) == Some((nf(v), tail)),
+{
+    let n = nsat(v, %(NB)d);
+    let w = enc_list(v) + tail;
+    crate::lemma_bits_len(n as int, 6);
+    assert(crate::pow2(6) == 64) by(compute);
+    crate::lemma_uval_bits(n as int, 6);
+    assert(w.subrange(0, 6) =~= crate::bits_of_int(n as int, 6));
+    assert(w.subrange(6, w.len() as int) =~= groups(v, %(NB)d) + tail);
+    lemma_gents_len(v, %(NB)d);
+    lemma_dec_groups(v, %(NB)d, tail, 0, Seq::<%(E)s>::empty());
+    assert(Seq::<%(E)s>::empty() + gents(v, %(NB)d) =~= nf(v));
+}'''),
+    ('same_multiset', '''pub proof fn lemma_nf_multiset(v: Seq<%(E)s>, t: nat)
+    requires t <= %(NB)d,
+    ensures gents(v, t).to_multiset() == sel(v, t as int, v.len()).to_multiset(),
+    decreases t
+{
+    if t == 0 {
+        lemma_sel_zero(v, v.len());
+    } else {
+        let t1 = (t - 1) as nat;
+        lemma_nf_multiset(v, t1);
+        lemma_sel_step(v, t1 as int, v.len());
+        if !present(v, v.len() as int, t1 as int) { lemma_gent_absent(v, t1 as int, v.len()); assert(gents(v, t1) + Seq::<%(E)s>::empty() =~= gents(v, t1)); }
+        vstd::seq_lib::lemma_multiset_commutative(gents(v, t1), gent(v, t1 as int, v.len()));
+        assert(gents(v, t) =~= gents(v, t1) + gent(v, t1 as int, v.len()));
+    }
+}'''),
+    ('c16_statement', '''pub proof fn lemma_c16_statement(v: Seq<%(E)s>, tail: Seq<bool>)
+    requires counts_fit(v), v.len() <= %(CAP)s,
+    ensures ({
+        let d = dec_list(enc_list(v) + tail);
+        &&& d is Some && d->Some_0.1 == tail
+        &&& d->Some_0.0.to_multiset() == sel(v, %(NB)d, v.len()).to_multiset()     // every recognised entry exactly once (satellites below %(NB)d: all the encoder accepts)
+        &&& grouped(d->Some_0.0)                                                    // grouped by ascending satellite
+        &&& d->Some_0.0.len() <= v.len()
+    }),
+{
+    lemma_decode_inverts_encode(v, tail);
+    lemma_nf_multiset(v, %(NB)d);
+    lemma_gents_grouped(v, %(NB)d);
+    lemma_gents_len(v, %(NB)d);
+}'''),
+]
+
+INVERSE2 = '''
+pub proof fn lemma_sel_zero(v: Seq<%(E)s>, k: nat) ensures sel(v, 0, k) == Seq::<%(E)s>::empty() decreases k { if k > 0 { lemma_sel_zero(v, (k - 1) as nat); } }
+pub proof fn lemma_sel_step(v: Seq<%(E)s>, t: int, k: nat)
+    ensures sel(v, t + 1, k).to_multiset() == sel(v, t, k).to_multiset().add(gent(v, t, k).to_multiset()),
+    decreases k
+{
+    broadcast use vstd::seq_lib::group_to_multiset_ensures;
+    if k == 0 {
+        assert(sel(v, t + 1, 0).to_multiset() =~= sel(v, t, 0).to_multiset().add(gent(v, t, 0).to_multiset()));
+    } else {
+        let k1 = (k - 1) as nat;
+        lemma_sel_step(v, t, k1);
+        let e = v[k - 1];
+        assert(sel(v, t + 1, k).to_multiset() =~= sel(v, t, k).to_multiset().add(gent(v, t, k).to_multiset()));
+    }
+}
+'''
